@@ -117,13 +117,22 @@ func (r *RADVS) sendAdvertistementLoop() {
 	h.Lock()
 	retrans := r.Router.RetransTimer
 	h.Unlock()
-	ticker := time.NewTicker(time.Duration(int64(time.Millisecond) * int64(retrans))).C
+	t := time.NewTicker(time.Duration(int64(time.Millisecond) * int64(retrans)))
+	defer t.Stop()
+	ticker := t.C
 	for {
 		select {
 		case <-r.stopChannel:
 			return
 
 		case <-ticker:
+			// Close of the handler ends the advertisements as well
+			h.Lock()
+			closed := h.closed
+			h.Unlock()
+			if closed {
+				return
+			}
 			if err := r.SendRA(); err != nil {
 				fmt.Printf("icmp6 : error in send ra: %s", err)
 			}
